@@ -91,6 +91,7 @@ fn main() {
         "c09_porcelain" => c09::porcelain(&v),
         "c09_json_lines" => c09::json_lines(&v),
         "c09_note_text" => c09::note_text(&v),
+        "c09_split" => c09::split(&v),
         "c12_profile" => c12::profile(&v),
         "c12_callsite" => c12::callsite(&v),
         "c16_tokenize" => c16::tokenize(&v),
